@@ -28,7 +28,7 @@ func init() {
 			"negates exactly under sign byte 1 and rejects other sign bytes. R3: index/slice sites of the hand-written caster are in range (MarshalTo's nil case is an encoder contract: the buffer is sized by Size). Does NOT decide: decode(encode(x)) = x for all x, " +
 			"canonicity, agreement with an independent encoder, totality of the generated decoder (protoc is not installed; the generated file cannot be regenerated).",
 		Trusted: []string{"go/ast of the generated file as type-checked", "the .proto file is the documented wire format"},
-		Rules:   []func(*Ctx){c14r1, c14r2, c14r3},
+		Rules:   []func(*Ctx){c14r1, c14r2, c14r3, c14r4},
 	})
 }
 
@@ -778,6 +778,62 @@ func shiftAccumulateRule(c *Ctx, rule string, scope func(*Prog, *ssa.Function) b
 				construct := fmt.Sprintf("fold of %s into a %d-bit accumulator by << %d", e.Term(src), width, k)
 				r := c.P.ProveLin(fn, shl, func(e *Env) []LE { return []LE{leConst(maxLen).minus(e.lenOf(src))} }, nil)
 				_ = goal
+				// the folded word reinterpreted as a signed number of the same width: one bit less
+				signedMax := (width - 1) / k
+				signedConv := func(cv *ssa.Convert) bool {
+					bt, ok := cv.Type().Underlying().(*types.Basic)
+					if !ok || bt.Info()&types.IsInteger == 0 || bt.Info()&types.IsUnsigned != 0 {
+						return false
+					}
+					sz := map[types.BasicKind]int64{types.Int8: 8, types.Int16: 16, types.Int32: 32, types.Int64: 64, types.Int: 64}[bt.Kind()]
+					return sz != 0 && sz <= width
+				}
+				checkSigned := func(cfn *ssa.Function, cv *ssa.Convert, lenArg func(e *Env) LE, what string) {
+					construct2 := fmt.Sprintf("%s reinterpreted as signed %s", what, cv.Type().String())
+					r2 := c.P.ProveLin(cfn, cv, func(e *Env) []LE { return []LE{leConst(signedMax).minus(lenArg(e))} }, nil)
+					if r2.OK {
+						c.OK(rule, FuncName(cfn), construct2, c.P.InstrPos(cv), "len <= "+fmt.Sprint(signedMax)+": "+r2.By)
+					} else {
+						c.FailX(Oblig{Rule: rule, Func: FuncName(cfn), Construct: construct2, Pos: c.P.InstrPos(cv), Kind: "violation",
+							Detail:   fmt.Sprintf("up to %d bytes are folded into a %d-bit word that is then converted to a signed integer: a magnitude with the top bit set changes sign and value (the decoded amount differs from the encoded one)", maxLen, width),
+							Facts:    r2.Facts,
+							Expected: fmt.Sprintf("a guard entailing len <= %d before the conversion, or no signed reinterpretation", signedMax)})
+					}
+				}
+				for _, bb := range fn.Blocks {
+					for _, i2 := range bb.Instrs {
+						if cv, ok := i2.(*ssa.Convert); ok && signedConv(cv) && (cv.X == ssa.Value(acc) || usesValue(cv.X, acc, 0)) {
+							checkSigned(fn, cv, func(e *Env) LE { return e.lenOf(src) }, "fold of "+e.Term(src))
+						}
+					}
+				}
+				// the fold lives in a helper that returns the word: conversions at its call sites
+				retAcc := len(returnsOf(fn)) > 0
+				for _, rr := range returnsOf(fn) {
+					if len(rr.Results) != 1 || !(retval(rr, 0) == ssa.Value(acc) || usesValue(retval(rr, 0), acc, 0)) {
+						retAcc = false
+					}
+				}
+				if srcPar, isPar := src.(*ssa.Parameter); retAcc && isPar {
+					pidx := -1
+					for pi, q := range fn.Params {
+						if q == srcPar {
+							pidx = pi
+						}
+					}
+					for _, cs := range c.P.Callers[fn] {
+						call, ok := cs.(*ssa.Call)
+						if !ok || call.Referrers() == nil || pidx < 0 || pidx >= len(call.Call.Args) {
+							continue
+						}
+						arg := call.Call.Args[pidx]
+						for _, u := range *call.Referrers() {
+							if cv, ok := u.(*ssa.Convert); ok && signedConv(cv) {
+								checkSigned(call.Parent(), cv, func(e *Env) LE { return e.lenOf(arg) }, "word returned by "+fn.Name())
+							}
+						}
+					}
+				}
 				if r.OK {
 					c.OK(rule, FuncName(fn), construct, c.P.InstrPos(shl), "len <= "+fmt.Sprint(maxLen)+": "+r.By)
 				} else {
@@ -820,6 +876,181 @@ func usesValueThroughLoad(v ssa.Value, ia *ssa.IndexAddr, d int) bool {
 		return usesValueThroughLoad(x.X, ia, d+1)
 	}
 	return false
+}
+
+// c14r4: in the decoders of package data/esdt (generated and hand-written), a cursor advanced by a decoded length — a sum one
+// operand of which comes from a varint fold or from the skip function — is tested for overflow (`sum < 0`) before it is
+// compared with the buffer length, used as a slice bound or an allocation size, or stored back into the cursor. The machine
+// sum of two non-negative ints can be negative; only the explicit test excludes that (the linear engine reasons over ideal
+// integers and would not notice its absence).
+func c14r4(c *Ctx) {
+	const rule = "C14-R4"
+	c.Rule(rule, "decoder: cursor + decoded length is checked for overflow before any other use", 10)
+	for _, fn := range c.P.Funcs {
+		if !c.P.InPkgs(fn, "data/esdt") && !c.P.InPkgs(fn, "data") {
+			continue
+		}
+		e := c.P.Env(fn)
+		// decoded quantities: φ accumulators fed by `acc | (x << s)`, and the int result of a package function with an error
+		decoded := map[ssa.Value]bool{}
+		for _, b := range fn.Blocks {
+			for _, in := range b.Instrs {
+				switch x := in.(type) {
+				case *ssa.Phi:
+					if !isInteger(x.Type()) {
+						continue
+					}
+					for _, ed := range x.Edges {
+						if bo, ok := ed.(*ssa.BinOp); ok && bo.Op == token.OR && bo.X == ssa.Value(x) {
+							if sh, ok := bo.Y.(*ssa.BinOp); ok && sh.Op == token.SHL {
+								decoded[x] = true
+							}
+						}
+					}
+				case *ssa.Extract:
+					if call, ok := x.Tuple.(*ssa.Call); ok && x.Index == 0 && isInteger(x.Type()) {
+						if sc := call.Call.StaticCallee(); sc != nil && sc.Pkg == fn.Pkg && lastIsError(sc) {
+							decoded[x] = true
+						}
+					}
+				}
+			}
+		}
+		if len(decoded) == 0 {
+			continue
+		}
+		var derives func(v ssa.Value, d int) bool
+		derives = func(v ssa.Value, d int) bool {
+			if decoded[v] {
+				return true
+			}
+			if d > 4 {
+				return false
+			}
+			switch x := v.(type) {
+			case *ssa.Convert:
+				return derives(x.X, d+1)
+			case *ssa.BinOp:
+				if x.Op == token.OR || x.Op == token.AND || x.Op == token.SHL {
+					return derives(x.X, d+1) || derives(x.Y, d+1)
+				}
+			case *ssa.Phi:
+				for _, ed := range x.Edges {
+					if ed != ssa.Value(x) && derives(ed, d+1) && !decoded[x] {
+						return true
+					}
+				}
+			}
+			return false
+		}
+		seen := map[string]int{}
+		for _, b := range fn.Blocks {
+			for _, in := range b.Instrs {
+				sum, ok := in.(*ssa.BinOp)
+				if !ok || sum.Op != token.ADD || !isInteger(sum.Type()) || isUnsignedT(sum.Type()) {
+					continue
+				}
+				if !(derives(sum.X, 0) || derives(sum.Y, 0)) || sum.Referrers() == nil {
+					continue
+				}
+				exact := e.LE(sum).String()
+				pred := func(f Fact) bool { return f.Lin && f.LE.String() == exact }
+				var uses []ssa.Instruction
+				for _, u := range *sum.Referrers() {
+					switch x := u.(type) {
+					case *ssa.DebugRef:
+					case *ssa.BinOp:
+						// the overflow test itself
+						if k, isK := constInt(x.Y); isK && k == 0 && x.X == ssa.Value(sum) && (x.Op == token.LSS || x.Op == token.GEQ) {
+							continue
+						}
+						uses = append(uses, u)
+					case *ssa.Phi:
+						for k2, ed := range x.Edges {
+							if ed == ssa.Value(sum) {
+								pb := x.Block().Preds[k2]
+								uses = append(uses, pb.Instrs[len(pb.Instrs)-1])
+							}
+						}
+					default:
+						uses = append(uses, u)
+					}
+				}
+				if len(uses) == 0 {
+					continue
+				}
+				construct := "sum " + exact
+				seen[construct]++
+				if k := seen[construct]; k > 1 {
+					construct += fmt.Sprintf(" #%d", k)
+				}
+				bad := ""
+				for _, u := range uses {
+					if _, ok := e.CutAt(u, pred, nil); ok {
+						continue
+					}
+					// merged into a variable that is itself tested before it is used (`switch { case: i += n }; if i < 0 {…}`)
+					okVia := false
+					if jmp, isJump := u.(*ssa.Jump); isJump && len(jmp.Block().Succs) == 1 {
+						for _, pi := range jmp.Block().Succs[0].Instrs {
+							ph, isPhi := pi.(*ssa.Phi)
+							if !isPhi {
+								break
+							}
+							carries := false
+							for k2, ed := range ph.Edges {
+								if ed == ssa.Value(sum) && ph.Block().Preds[k2] == jmp.Block() {
+									carries = true
+								}
+							}
+							if !carries || ph.Referrers() == nil {
+								continue
+							}
+							pexact := e.LE(ph).String()
+							ppred := func(f Fact) bool { return f.Lin && f.LE.String() == pexact }
+							all := true
+							for _, pu := range *ph.Referrers() {
+								if _, isDbg := pu.(*ssa.DebugRef); isDbg {
+									continue
+								}
+								if bo, isBO := pu.(*ssa.BinOp); isBO {
+									if k, isK := constInt(bo.Y); isK && k == 0 && bo.X == ssa.Value(ph) && (bo.Op == token.LSS || bo.Op == token.GEQ) {
+										continue
+									}
+								}
+								var at ssa.Instruction = pu
+								if ph2, isPhi2 := pu.(*ssa.Phi); isPhi2 {
+									// flows on into another merge: judged at the jump that carries it
+									for k3, ed := range ph2.Edges {
+										if ed == ssa.Value(ph) {
+											pb := ph2.Block().Preds[k3]
+											at = pb.Instrs[len(pb.Instrs)-1]
+										}
+									}
+								}
+								if _, ok := e.CutAt(at, ppred, nil); !ok {
+									all = false
+								}
+							}
+							if all {
+								okVia = true
+							}
+						}
+					}
+					if !okVia {
+						bad = "used at " + c.P.InstrPos(u) + " without the overflow test `" + exact + " < 0` on the way"
+					}
+				}
+				if bad == "" {
+					c.OK(rule, FuncName(fn), construct, c.P.InstrPos(sum), fmt.Sprintf("the test of the sum against 0 cuts all %d uses", len(uses)))
+				} else {
+					c.FailX(Oblig{Rule: rule, Func: FuncName(fn), Construct: construct, Pos: c.P.InstrPos(sum), Kind: "violation",
+						Detail:   "a cursor advanced by a decoded length is " + bad + ": a length near MaxInt64 wraps the sum negative, passes the `> len` test and panics in the slice expression / allocation (decode must return an error, never panic)",
+						Expected: "if sum < 0 { return ErrInvalidLength } before the comparison with the buffer length"})
+				}
+			}
+		}
+	}
 }
 
 func c14r3(c *Ctx) {
